@@ -1049,3 +1049,75 @@ def no_input_mutation_rule(ctx, rid, funcs=None):
         else:
             rr.ok("%s does not modify %s" % (f.name, sorted(params) or "its description inputs"))
     return rr
+
+
+def nan_placeholder_rule(ctx, rid):
+    """C02.R5 / C09.R7: the stand-in for a value that was never computed is
+    'missing' whatever the type of the real results: every value returned by
+    nan_like_result is None or NaN in a float / object container.  A fill
+    that keeps the result's dtype (integer, bool) turns NaN into ordinary
+    data."""
+    rr = ctx.rule(rid, "placeholder constructor: every value returned by nan_like_result is None or NaN in a float / object container (never a dtype-preserving fill)", floor=3)
+    f = ctx.prog.need_func(CR + ".nan_like_result")
+    ctx.touch(f)
+    FLOATS = {"float", "np.float64", "numpy.float64", "np.float_", "object", "'float'", "'float64'", "np.floating", "np.double", "'object'", "'O'"}
+    NANS = {"np.nan", "numpy.nan", "math.nan", "float('nan')", 'float("nan")', "np.NaN", "np.NAN"}
+
+    def classify(e):
+        """'ok' | ('bad', why) | None (unknown)"""
+        if isinstance(e, ast.Constant) and e.value is None:
+            return "ok"
+        if norm(e) in NANS:
+            return "ok"
+        if isinstance(e, ast.Name):
+            d = single_def(f, e.id)
+            return classify(d[1]) if d and d[1] is not None else None
+        if isinstance(e, (ast.Tuple, ast.List)):
+            rs = [classify(x) for x in e.elts]
+            bad = [r for r in rs if isinstance(r, tuple)]
+            return bad[0] if bad else ("ok" if rs and all(r == "ok" for r in rs) else None)
+        if isinstance(e, (ast.GeneratorExp, ast.ListComp)):
+            return classify(e.elt)
+        if isinstance(e, ast.Call):
+            fn = norm(e.func)
+            last = fn.rsplit(".", 1)[-1]
+            if fn in ("tuple", "list") and len(e.args) == 1:
+                return classify(e.args[0])
+            if last == "broadcast_to" and e.args:
+                return classify(e.args[0])
+            if last == "full_like" and len(e.args) >= 2:
+                fill = classify(e.args[1])
+                dt = arg(e, 2, "dtype")
+                if fill != "ok":
+                    return fill if fill is not None else None
+                if dt is None:
+                    return ("bad", "`%s` keeps the dtype of the real result: for integer or boolean results NaN is cast to an ordinary value (a huge negative integer / True), so unfinished positions read as data" % norm(e))
+                if norm(dt) in FLOATS:
+                    return "ok"
+                return ("bad", "`%s` fills with dtype %s, which cannot hold NaN" % (norm(e), norm(dt)))
+            if last == "full" and len(e.args) >= 2:
+                fill = classify(e.args[1])
+                dt = arg(e, 2, "dtype")
+                if fill == "ok" and (dt is None or norm(dt) in FLOATS):
+                    return "ok"
+                if fill == "ok":
+                    return ("bad", "`%s` fills with dtype %s, which cannot hold NaN" % (norm(e), norm(dt)))
+                return fill
+            if last in ("zeros_like", "ones_like", "empty_like", "zeros", "ones", "empty", "copy", "deepcopy"):
+                return ("bad", "`%s` is not a NaN / None stand-in: unfinished positions read as data" % norm(e))
+        return None
+
+    rets = [s for s in walk_shallow(f.node) if isinstance(s, ast.Return)]
+    need(len(rets) >= 3, "anchor lost: return statements of nan_like_result")
+    for r in rets:
+        if r.value is None:
+            rr.ok("bare return (None)")
+            continue
+        c = classify(r.value)
+        if c == "ok":
+            rr.ok("return %s: NaN / None stand-in" % norm(r.value)[:70], norm(r.value))
+        elif isinstance(c, tuple):
+            rr.bad(ctx.finding(rid, f, r, c[1], construct="placeholder-fill " + norm(r.value.func if isinstance(r.value, ast.Call) else r.value)), "placeholder fill")
+        else:
+            raise AnalysisError("idiom changed: nan_like_result returns `%s`, not a recognised NaN / None constructor" % norm(r.value)[:80])
+    return rr
